@@ -458,6 +458,60 @@ func runC04(r *Run) {
 		r.Floor("R11", "SaveGrant calls that re-save an existing grant", nS, 4)
 	}
 
+	// ---------- R13 ----------
+	r.Rule("R13", "FLOW.grantee-and-granter-keep-their-places: in every precompile function that receives parameters named grantee and granter, each call whose callee has parameters named grantee and granter (SaveGrant, DeleteGrant, GetAuthorization, CheckAuthzExists, the create/update helpers) receives the value of its own grantee parameter in the grantee position and the value of its own granter parameter in the granter position — a swapped pair addresses the reverse grant: the signer's limited grant is never reduced and a grant from the contract to the signer appears")
+	{
+		nP := 0
+		for _, fn := range P.Funcs {
+			if !strings.Contains(fnPkgPath(fn), "/precompiles/") || isTestSupport(P, fn) || fn.Synthetic != "" {
+				continue
+			}
+			var pe, pr *ssa.Parameter
+			for _, p := range fn.Params {
+				switch p.Name() {
+				case "grantee":
+					pe = p
+				case "granter":
+					pr = p
+				}
+			}
+			if pe == nil || pr == nil {
+				continue
+			}
+			eachCall(fn, func(ci CallInfo) {
+				sig := ci.Instr.Common().Signature()
+				if sig == nil {
+					return
+				}
+				ie, ir := -1, -1
+				for i := 0; i < sig.Params().Len(); i++ {
+					switch sig.Params().At(i).Name() {
+					case "grantee":
+						ie = i
+					case "granter":
+						ir = i
+					}
+				}
+				if ie < 0 || ir < 0 {
+					return
+				}
+				args := ci.Instr.Common().Args
+				if !ci.Instr.Common().IsInvoke() && sig.Recv() != nil {
+					args = args[1:]
+				}
+				if ie >= len(args) || ir >= len(args) {
+					return
+				}
+				nP++
+				se, sr := backSlice(args[ie]), backSlice(args[ir])
+				ok := se.Has(pe) && !se.Has(pr) && sr.Has(pr) && !sr.Has(pe)
+				r.Check(ok, "R13", fmt.Sprintf("%s#%s/grantee-granter", fnID(fn), ci.Name), P.Pos(instrPos(ci.Instr)), "grantee and granter passed in their own positions",
+					"the call receives this function's grantee/granter in the wrong positions (or values derived from something else): the grant that is read or written is not the (grantee, granter) grant the function was asked to handle")
+			})
+		}
+		r.Floor("R13", "calls passing a (grantee, granter) pair on", nP, 20)
+	}
+
 	// ---------- R12 ----------
 	r.Rule("R12", "PATH.allocation-matches-port-and-channel: a precompile function that selects one allocation of a transfer grant (it ranges over []Allocation and returns an index / spend limit) reaches its success exit only over the edge SourcePort == sourcePort and only over the edge SourceChannel == sourceChannel — an increase, decrease or spend addressed to one channel never lands on another channel's allocation")
 	{
